@@ -37,6 +37,12 @@ claim("C18", "Character maps (all 256 bytes each way, and names composed per cha
       "(7x2x10) are executed symbolically against an independently transcribed table; the tuning byte <-> cents codec is executed on a symbolic signed "
       "byte with IEEE-754 double semantics (QF_BVFP) and z3 shows build(parse(b)) == b.", XT + "; symx QF_BVFP for the float codec", "DESIGN.md 2/C18")
 
+claim("C14", "The real AKAI table loop runs over an abstract table with a nondeterministic entry sub-parser (symbolic damaged index, symbolic bytes "
+      "consumed before the error, symbolic exception type): every other entry is parsed from its own slot and survives in order; the real "
+      "FileEntryConstruct is additionally run on a concrete table with one symbolic byte per field (solver walks all 256 values); Volume._realize_files, "
+      "SafeListConstruct and the Roland partial's reference loop are run with symbolically failing sub-parsers.",
+      XT + " with nondeterministic sub-parser stubs", "DESIGN.md 2/C14")
+
 _pending = "check not built yet in this session (work in progress; see DESIGN.md section 2 for the planned obligations)"
 for _p in ["C01","C02","C03","C04","C05","C06","C07","C09","C10","C11","C12","C13","C14","C15","C16","C17","C18","C19","C20"]:
     if _p not in CHECKS:
